@@ -16,6 +16,13 @@ def apply(dst, subs):
     for f, nth, old, new in subs:
         p = os.path.join(dst, f)
         t = open(p).read()
+        if nth == "re":
+            import re
+            t2, n = re.subn(old, new, t)
+            if n == 0:
+                return "regex %r matches nothing in %s" % (old, f)
+            open(p, "w").write(t2)
+            continue
         idx = -1
         for _ in range(nth):
             idx = t.find(old, idx + 1)
